@@ -445,11 +445,11 @@ def run(ctx):
     # ---- run the implementation
     rng_cases = harness("range", 1 if thorough else 0)
     ctx.log("range cases:", len(rng_cases))
-    der_cases = harness("derived", 150 if thorough else 14)
+    der_cases = harness("derived", 80 if thorough else 14)
     ctx.log("derived cases:", len(der_cases))
-    set_cases = harness("sets", 6 if thorough else 1, "full" if thorough else "quick")
+    set_cases = harness("sets", 3 if thorough else 1, "full" if thorough else "quick")
     ctx.log("set cases:", len(set_cases))
-    ipa_cases = harness("ipa", 12 if thorough else 3)
+    ipa_cases = harness("ipa", 8 if thorough else 3)
     ctx.log("ipa cases:", len(ipa_cases))
 
     # ---- statement model (Coq) for the derived statements
@@ -493,8 +493,8 @@ def run(ctx):
     ctx.notes["observations"] = acc.obs
     for k in acc.obs:
         ctx.log("observation:", k, "x%d" % acc.obs[k]["count"])
-    ctx.cov["samples"] += [slim(rng_cases[3]) if len(rng_cases) > 3 else None, slim(der_cases[0]) if der_cases else None,
-                           slim(set_cases[5]) if len(set_cases) > 5 else None]
+    ctx.cov["samples"] += [x for x in (slim(rng_cases[3]) if len(rng_cases) > 3 else None, slim(der_cases[0]) if der_cases else None,
+                                       slim(set_cases[5]) if len(set_cases) > 5 else None) if x]
     ctx.cov["rule"] = (
         "range: every supported (n,m) shape with n in {1,2,4,8,16,32,64}, n*m a power of two <= 256 (thorough: <= 512), values 0, 1, 2^n-1, 2^(n-1), random; "
         "both ProofVersions x both transcript implementations; unsupported shapes (n in {3,7,63}, m in {3,5}) must yield no proof; values 2^n, 2^n+1, 2^n+rand, -1 via prove_given_scalars and prove; "
